@@ -19,7 +19,7 @@ import (
 // the first hit are tabled with their reason.
 var loopTable = map[string][]string{
 	"C01": {"lnwallet.LightningChannel.evaluateHTLCView", "lnwallet.LightningChannel.computeView", "lnwallet.LightningChannel.fetchHTLCView", "lnwallet.LightningChannel.fetchCommitmentView", "lnwallet.LightningChannel.validateCommitmentSanity", "lnwallet.CommitmentBuilder.createUnsignedCommitmentTx", "lnwallet.compactLogs", "lnwallet.commitment.toDiskCommit", "lnwallet.commitment.populateHtlcIndexes", "lnwallet.LightningChannel.ReceiveRevocation"},
-	"C02": {"lnwallet.LightningChannel.restorePendingRemoteUpdates", "lnwallet.LightningChannel.restorePeerLocalUpdates", "lnwallet.LightningChannel.restorePendingLocalUpdates", "lnwallet.LightningChannel.restoreStateLogs", "lnwallet.LightningChannel.unsignedLocalUpdates", "lnwallet.LightningChannel.getUnsignedAckedUpdates", "lnwallet.LightningChannel.createCommitDiff"},
+	"C02": {"lnwallet.LightningChannel.restorePendingRemoteUpdates", "lnwallet.LightningChannel.restorePeerLocalUpdates", "lnwallet.LightningChannel.restorePendingLocalUpdates", "lnwallet.LightningChannel.restoreStateLogs", "lnwallet.LightningChannel.unsignedLocalUpdates", "lnwallet.LightningChannel.getUnsignedAckedUpdates", "lnwallet.LightningChannel.createCommitDiff", "channeldb.ChannelStateDB.UpdateChannelCommitment", "channeldb.ChannelStateDB.AdvanceCommitChainTail"},
 	"C03": {"lnwallet.LightningChannel.ProcessChanSyncMsg"},
 	"C04": {"lnwallet.NewBreachRetribution", "lnwallet.createBreachRetribution", "lnwallet.createBreachRetributionLegacy", "contractcourt.newRetributionInfo", "contractcourt.BreachArbitrator.createJusticeTx", "contractcourt.BreachArbitrator.createSweepTx", "contractcourt.BreachArbitrator.exactRetribution", "contractcourt.BreachArbitrator.sweepSpendableOutputsTxn"},
 	"C05": {"lnwallet.genRemoteHtlcSigJobs", "lnwallet.genHtlcSigValidationJobs", "lnwallet.extractHtlcResolutions", "lnwallet.NewLocalForceCloseSummary", "lnwallet.NewUnilateralCloseSummary", "lnwallet.LightningChannel.SignNextCommitment", "lnwallet.LightningChannel.ReceiveNewCommitment"},
